@@ -248,7 +248,16 @@ class Origins:
                   "u128": 16, "i128": 16, "bool": 1, "char": 4}.get(cs.fn["args"][0])
             if sz is not None:
                 return ("const", sz, "usize", None)
-        return ("call", cs.callee, cs.decl, args, cs.loc(), cs.term.get("dty", ""))
+        callee, decl = cs.callee, cs.decl
+        # canonical callees: the free functions core::cmp::min / max are Ord::min / max
+        seg = last_seg(callee or "")
+        if seg in ("min", "max") and callee and ("cmp::min" in callee or "cmp::max" in callee) and len(args) == 2:
+            callee = decl = "std::cmp::Ord::" + seg
+        # `cond.then_some(v)` is `if cond { Some(v) } else { None }`
+        if seg == "then_some" and len(args) == 2 and callee and "bool" in callee:
+            return mk_phi((("agg", "adt", "std::option::Option", "None", ()),
+                           ("agg", "adt", "std::option::Option", "Some", (("0", args[1]),))))
+        return ("call", callee, decl, args, cs.loc(), cs.term.get("dty", ""))
 
     def rvalue(self, rv, bb, idx, depth):
         return simplify(self._rvalue(rv, bb, idx, depth))
